@@ -3,24 +3,33 @@
 (*   connect / close (idempotent) / bulk_read(n, timeout) / bulk_write                                       *)
 (* Peer bytes are named 1, 2, 3, ... in the order written.  A read returns a non-empty prefix of the          *)
 (* undelivered bytes, at most n of them; it may time out only when nothing is undelivered.  A read whose      *)
-(* timeout is 0 is a poll: the same contract (what has arrived is returned at once).                          *)
+(* timeout is 0 is a poll: the same contract (what has arrived is returned at once).  A read that is          *)
+(* abandoned (its asyncio task cancelled) consumes nothing.  Urgent (out-of-band) data of the peer is not     *)
+(* part of the byte stream: it neither makes a read return nor raise anything but the timeout error.           *)
+(* bulk_write(data, timeout) hands a non-empty prefix of data to the peer and reports its length, or raises    *)
+(* the timeout error having sent nothing; the peer receives exactly the reported bytes, in order.              *)
 EXTENDS Naturals, Sequences, TLC, Json
 CONSTANTS MaxWrite, MaxReq, MaxBytes
-VARIABLES connected, written, delivered, act
-vars == <<connected, written, delivered, act>>
-Init == connected = FALSE /\ written = 0 /\ delivered = 0 /\ act = [op |-> "init"]
+VARIABLES connected, written, delivered, act, hsent
+vars == <<connected, written, delivered, act, hsent>>
+Init == connected = FALSE /\ written = 0 /\ delivered = 0 /\ act = [op |-> "init"] /\ hsent = 0
 Undelivered == written - delivered
-Connect == /\ ~connected /\ connected' = TRUE /\ written' = 0 /\ delivered' = 0 /\ act' = [op |-> "connect"]
-Close == /\ connected' = FALSE /\ act' = [op |-> "close"] /\ UNCHANGED <<written, delivered>>
-PeerWrite(m) == /\ connected /\ written + m <= MaxBytes /\ written' = written + m /\ act' = [op |-> "pw", m |-> m] /\ UNCHANGED <<connected, delivered>>
+Connect == /\ ~connected /\ connected' = TRUE /\ written' = 0 /\ delivered' = 0 /\ act' = [op |-> "connect"] /\ hsent' = 0
+Close == /\ connected' = FALSE /\ act' = [op |-> "close"] /\ UNCHANGED <<written, delivered, hsent>>
+PeerWrite(m) == /\ connected /\ written + m <= MaxBytes /\ written' = written + m /\ act' = [op |-> "pw", m |-> m] /\ UNCHANGED <<connected, delivered, hsent>>
 ReadOk(n, k, z) == /\ connected /\ Undelivered > 0 /\ k >= 1 /\ k <= n /\ k <= Undelivered
-                   /\ delivered' = delivered + k /\ act' = [op |-> "read", n |-> n, k |-> k, first |-> delivered + 1, poll |-> z] /\ UNCHANGED <<connected, written>>
-ReadTimeout(n, z) == /\ connected /\ Undelivered = 0 /\ act' = [op |-> "timeout", n |-> n, poll |-> z] /\ UNCHANGED <<connected, written, delivered>>
+                   /\ delivered' = delivered + k /\ act' = [op |-> "read", n |-> n, k |-> k, first |-> delivered + 1, poll |-> z] /\ UNCHANGED <<connected, written, hsent>>
+ReadTimeout(n, z) == /\ connected /\ Undelivered = 0 /\ act' = [op |-> "timeout", n |-> n, poll |-> z] /\ UNCHANGED <<connected, written, delivered, hsent>>
+\* the host writes n bytes; k of them (1..n) are accepted and reach the peer
+HostWrite(n, k) == /\ connected /\ hsent + k <= MaxBytes /\ k >= 1 /\ k <= n /\ hsent' = hsent + k
+                   /\ act' = [op |-> "hw", n |-> n, k |-> k] /\ UNCHANGED <<connected, written, delivered>>
 Next == Connect \/ Close \/ (\E m \in 1..MaxWrite : PeerWrite(m)) \/ (\E n \in 1..MaxReq, z \in BOOLEAN : ReadTimeout(n, z) \/ \E k \in 1..n : ReadOk(n, k, z))
+        \/ (\E n \in 1..MaxWrite : \E k \in 1..n : HostWrite(n, k))
 Spec == Init /\ [][Next]_vars
 InOrderNoLossNoDup == delivered <= written
 ReadAtMost == act.op = "read" => act.k <= act.n
 TimeoutOnlyWhenEmpty == act.op = "timeout" => Undelivered = 0
-View == <<connected, written, delivered>>
+WriteAtMost == act.op = "hw" => (act.k >= 1 /\ act.k <= act.n)
+View == <<connected, written, delivered>>     \* hsent only counts: kept out of the view
 EmitEdge == PrintT(<<"EDGE", ToJson([from |-> [c |-> connected, w |-> written, d |-> delivered], act |-> act', to |-> [c |-> connected', w |-> written', d |-> delivered']])>>)
 =============================================================================
